@@ -6,6 +6,7 @@ import (
 	"io"
 	"os"
 	"os/exec"
+	"runtime"
 	"strings"
 	"sync"
 )
@@ -57,8 +58,71 @@ func (d *Driver) Ask(line string) (string, error) {
 	return strings.TrimRight(s, "\n"), nil
 }
 
-// Batch pipelines many lines.
+// pool: extra driver processes for large batches (the driver is a pure function of each line, so a batch can be
+// cut into contiguous shards answered by independent processes)
+var (
+	poolMu sync.Mutex
+	pool   []*Driver
+)
+
+func poolDrivers(n int) []*Driver {
+	poolMu.Lock()
+	defer poolMu.Unlock()
+	for len(pool) < n {
+		d, err := StartDriver()
+		if err != nil {
+			break
+		}
+		pool = append(pool, d)
+	}
+	return pool
+}
+
+// Batch answers many lines, in order; large batches are sharded over a pool of driver processes.
 func (d *Driver) Batch(lines []string) ([]string, error) {
+	const shardMin = 4000
+	n := runtime.NumCPU() / 2
+	if n > 8 {
+		n = 8
+	}
+	if len(lines) < 2*shardMin || n < 2 || os.Getenv("VERIF_DRIVER_POOL") == "0" {
+		return d.batch1(lines)
+	}
+	if k := len(lines) / shardMin; k < n {
+		n = k
+	}
+	ds := append([]*Driver{d}, poolDrivers(n-1)...)
+	n = len(ds)
+	res := make([]string, len(lines))
+	errs := make([]error, n)
+	var wg sync.WaitGroup
+	per := (len(lines) + n - 1) / n
+	for i := 0; i < n; i++ {
+		lo, hi := i*per, (i+1)*per
+		if lo >= len(lines) {
+			break
+		}
+		if hi > len(lines) {
+			hi = len(lines)
+		}
+		wg.Add(1)
+		go func(i, lo, hi int) {
+			defer wg.Done()
+			out, err := ds[i].batch1(lines[lo:hi])
+			copy(res[lo:hi], out)
+			errs[i] = err
+		}(i, lo, hi)
+	}
+	wg.Wait()
+	for _, e := range errs {
+		if e != nil {
+			return res, e
+		}
+	}
+	return res, nil
+}
+
+func (d *Driver) batch1(lines []string) ([]string, error) {
 	d.mu.Lock()
 	defer d.mu.Unlock()
 	errc := make(chan error, 1)
@@ -89,6 +153,13 @@ func (d *Driver) Batch(lines []string) ([]string, error) {
 func (d *Driver) Close() {
 	d.in.Close()
 	d.cmd.Wait()
+	poolMu.Lock()
+	defer poolMu.Unlock()
+	for _, p := range pool {
+		p.in.Close()
+		p.cmd.Wait()
+	}
+	pool = nil
 }
 
 // fields splits "k=v k=v" answers.
